@@ -25,7 +25,7 @@ func describe(repo string) int {
 		ctx := an.NewCtx(p, id, "describe")
 		func() {
 			defer func() { recover() }()
-			r.Run(ctx)
+			rules.Execute(r, ctx)
 		}()
 		fmt.Printf("### %s\n\n", id)
 		fmt.Printf("**Decides.** %s\n\n", r.Explanation)
